@@ -97,61 +97,63 @@ structure TyName where
   tstr : Str     -- `%T`
   deriving DecidableEq, Repr, Inhabited
 
-def tn (pkg short : String) : TyName := ⟨lit (pkg ++ "/" ++ short), lit short⟩
+open Lean in
+/-- `tn! "pkg/path" "*pkg.Type"` : explicit byte literals for ⟨"pkg/path/*pkg.Type", "*pkg.Type"⟩ -/
+macro "tn!" pkg:str short:str : term => do
+  let full := Syntax.mkStrLit (pkg.getString ++ "/" ++ short.getString)
+  `((⟨b!$full, b!$short⟩ : TyName))
 
-def crdb : String := "github.com/cockroachdb/errors/"
-
-def tnBarrier : TyName := tn (crdb ++ "barriers") "*barriers.barrierErr"
-def tnBarrierPrev : TyName := tn (crdb ++ "barriers") "*barriers.barrierError"
-def tnSecondary : TyName := tn (crdb ++ "secondary") "*secondary.withSecondaryError"
-def tnOpaqueLeaf : TyName := tn (crdb ++ "errbase") "*errbase.opaqueLeaf"
-def tnOpaqueLeafCauses : TyName := tn (crdb ++ "errbase") "*errbase.opaqueLeafCauses"
-def tnOpaqueWrapper : TyName := tn (crdb ++ "errbase") "*errbase.opaqueWrapper"
+def tnBarrier : TyName := tn! "github.com/cockroachdb/errors/barriers" "*barriers.barrierErr"
+def tnBarrierPrev : TyName := tn! "github.com/cockroachdb/errors/barriers" "*barriers.barrierError"
+def tnSecondary : TyName := tn! "github.com/cockroachdb/errors/secondary" "*secondary.withSecondaryError"
+def tnOpaqueLeaf : TyName := tn! "github.com/cockroachdb/errors/errbase" "*errbase.opaqueLeaf"
+def tnOpaqueLeafCauses : TyName := tn! "github.com/cockroachdb/errors/errbase" "*errbase.opaqueLeafCauses"
+def tnOpaqueWrapper : TyName := tn! "github.com/cockroachdb/errors/errbase" "*errbase.opaqueWrapper"
 
 def LeafKind.ty : LeafKind → TyName
-  | .leafError _ => tn (crdb ++ "errutil") "*errutil.leafError"
-  | .errorString _ => tn "errors" "*errors.errorString"
-  | .deadline => tn "context" "context.deadlineExceededError"
-  | .errno .. => tn "syscall" "syscall.Errno"
-  | .opaqueErrno .. => tn (crdb ++ "errbase") "*errbase.OpaqueErrno"
-  | .pkgFundamental .. => tn "github.com/pkg/errors" "*errors.fundamental"
-  | .unimplemented .. => tn (crdb ++ "issuelink") "*issuelink.unimplementedError"
-  | .testErr => tn (crdb ++ "errorspb") "*errorspb.TestError"
+  | .leafError _ => tn! "github.com/cockroachdb/errors/errutil" "*errutil.leafError"
+  | .errorString _ => tn! "errors" "*errors.errorString"
+  | .deadline => tn! "context" "context.deadlineExceededError"
+  | .errno .. => tn! "syscall" "syscall.Errno"
+  | .opaqueErrno .. => tn! "github.com/cockroachdb/errors/errbase" "*errbase.OpaqueErrno"
+  | .pkgFundamental .. => tn! "github.com/pkg/errors" "*errors.fundamental"
+  | .unimplemented .. => tn! "github.com/cockroachdb/errors/issuelink" "*issuelink.unimplementedError"
+  | .testErr => tn! "github.com/cockroachdb/errors/errorspb" "*errorspb.TestError"
   | .opaqueLeaf .. => tnOpaqueLeaf
   | .user u _ => ⟨u.name, u.tstr⟩
 
 def WrapKind.ty : WrapKind → TyName
-  | .withPrefix _ => tn (crdb ++ "errutil") "*errutil.withPrefix"
-  | .withNewMessage _ => tn (crdb ++ "errutil") "*errutil.withNewMessage"
-  | .withStack _ => tn (crdb ++ "withstack") "*withstack.withStack"
-  | .withHint _ => tn (crdb ++ "hintdetail") "*hintdetail.withHint"
-  | .withDetail _ => tn (crdb ++ "hintdetail") "*hintdetail.withDetail"
-  | .withIssueLink .. => tn (crdb ++ "issuelink") "*issuelink.withIssueLink"
-  | .withTelemetry _ => tn (crdb ++ "telemetrykeys") "*telemetrykeys.withTelemetry"
-  | .withDomain _ => tn (crdb ++ "domains") "*domains.withDomain"
-  | .withContext .. => tn (crdb ++ "contexttags") "*contexttags.withContext"
-  | .withAssertionFailure => tn (crdb ++ "assert") "*assert.withAssertionFailure"
-  | .withSafeDetails _ => tn (crdb ++ "safedetails") "*safedetails.withSafeDetails"
-  | .withMark .. => tn (crdb ++ "markers") "*markers.withMark"
-  | .withHTTPCode _ => tn (crdb ++ "exthttp") "*exthttp.withHTTPCode"
-  | .withGrpcCode _ => tn (crdb ++ "extgrpc") "*extgrpc.withGrpcCode"
-  | .pkgWithMessage _ => tn "github.com/pkg/errors" "*errors.withMessage"
-  | .pkgWithStack _ => tn "github.com/pkg/errors" "*errors.withStack"
-  | .pathError .. => tn "io/fs" "*fs.PathError"
-  | .linkError .. => tn "os" "*os.LinkError"
-  | .syscallError _ => tn "os" "*os.SyscallError"
-  | .fmtWrapError _ => tn "fmt" "*fmt.wrapError"
+  | .withPrefix _ => tn! "github.com/cockroachdb/errors/errutil" "*errutil.withPrefix"
+  | .withNewMessage _ => tn! "github.com/cockroachdb/errors/errutil" "*errutil.withNewMessage"
+  | .withStack _ => tn! "github.com/cockroachdb/errors/withstack" "*withstack.withStack"
+  | .withHint _ => tn! "github.com/cockroachdb/errors/hintdetail" "*hintdetail.withHint"
+  | .withDetail _ => tn! "github.com/cockroachdb/errors/hintdetail" "*hintdetail.withDetail"
+  | .withIssueLink .. => tn! "github.com/cockroachdb/errors/issuelink" "*issuelink.withIssueLink"
+  | .withTelemetry _ => tn! "github.com/cockroachdb/errors/telemetrykeys" "*telemetrykeys.withTelemetry"
+  | .withDomain _ => tn! "github.com/cockroachdb/errors/domains" "*domains.withDomain"
+  | .withContext .. => tn! "github.com/cockroachdb/errors/contexttags" "*contexttags.withContext"
+  | .withAssertionFailure => tn! "github.com/cockroachdb/errors/assert" "*assert.withAssertionFailure"
+  | .withSafeDetails _ => tn! "github.com/cockroachdb/errors/safedetails" "*safedetails.withSafeDetails"
+  | .withMark .. => tn! "github.com/cockroachdb/errors/markers" "*markers.withMark"
+  | .withHTTPCode _ => tn! "github.com/cockroachdb/errors/exthttp" "*exthttp.withHTTPCode"
+  | .withGrpcCode _ => tn! "github.com/cockroachdb/errors/extgrpc" "*extgrpc.withGrpcCode"
+  | .pkgWithMessage _ => tn! "github.com/pkg/errors" "*errors.withMessage"
+  | .pkgWithStack _ => tn! "github.com/pkg/errors" "*errors.withStack"
+  | .pathError .. => tn! "io/fs" "*fs.PathError"
+  | .linkError .. => tn! "os" "*os.LinkError"
+  | .syscallError _ => tn! "os" "*os.SyscallError"
+  | .fmtWrapError _ => tn! "fmt" "*fmt.wrapError"
   | .opaqueWrapper .. => tnOpaqueWrapper
   | .user u _ => ⟨u.name, u.tstr⟩
 
 def MultiKind.ty : MultiKind → TyName
-  | .join => tn (crdb ++ "join") "*join.joinError"
-  | .stdJoin => tn "errors" "*errors.joinError"
-  | .fmtWrapErrors _ => tn "fmt" "*fmt.wrapErrors"
+  | .join => tn! "github.com/cockroachdb/errors/join" "*join.joinError"
+  | .stdJoin => tn! "errors" "*errors.joinError"
+  | .fmtWrapErrors _ => tn! "fmt" "*fmt.wrapErrors"
   | .opaqueLeafCauses .. => tnOpaqueLeafCauses
   | .user u _ => ⟨u.name, u.tstr⟩
 
 /-- The key under which `os.PathError` used to be known (Go < 1.16). -/
-def osPathErrorKey : Str := lit "os/*os.PathError"
+def osPathErrorKey : Str := b!"os/*os.PathError"
 
 end ErrModel
